@@ -131,6 +131,50 @@ func VerifC19_Addresses() {
 	}
 }
 
+// c19RealAddressPaths: every path vouch itself looks beacon node addresses up under (main.go).
+var c19RealAddressPaths = []string{
+	"strategies.synccommitteecontribution.first", "strategies.synccommitteecontribution.best",
+	"strategies.beaconblockroot.majority", "strategies.beaconblockroot.first",
+	"strategies.beaconblockproposal.first", "strategies.beaconblockproposal.best",
+	"strategies.attestationdata.majority", "strategies.attestationdata.first", "strategies.attestationdata.best",
+	"strategies.aggregateattestation.first", "strategies.aggregateattestation.best",
+}
+
+// VerifC19_AddressesRealPaths: BeaconNodeAddresses over the paths vouch really uses, with their real
+// component names (the short catalogue above rests on the lookup depending on a path only through its
+// chain of prefixes; this one does not): any subset of the levels of the chosen path (top, "strategies",
+// the family, the style) and of a sibling style holds a list, and the answer is the list of the longest
+// prefix that holds one.
+func VerifC19_AddressesRealPaths() {
+	viper.Reset()
+	path := c19RealAddressPaths[vnd.Choose("path", len(c19RealAddressPaths))]
+	prefixes := c19Prefixes(path) // longest first
+	levels := append([]string{""}, prefixes...)
+	levels = append(levels, prefixes[1]+".other") // a sibling of the style: never consulted
+	vals := map[string][]string{}
+	for _, lvl := range levels {
+		if vnd.Bool("level.has.addresses") {
+			viper.Set(c19Key(lvl, "beacon-node-addresses"), []string{"node@" + lvl})
+			vals[lvl] = []string{"node@" + lvl}
+		}
+	}
+	got := BeaconNodeAddresses(path)
+	var want []string
+	for _, p := range append(prefixes, "") {
+		if v, ok := vals[p]; ok {
+			want = v
+			break
+		}
+	}
+	if want != nil {
+		vnd.Cover("C19.realpaths.some-level-set")
+	}
+	vnd.Assert(len(got) == len(want), "C19.realpaths.longest-prefix.len")
+	if len(want) == 1 && len(got) == 1 {
+		vnd.Assert(got[0] == want[0], "C19.realpaths.value-of-the-longest-prefix-that-has-one")
+	}
+}
+
 // VerifC19_LogLevel: LogLevel(path).
 func VerifC19_LogLevel() {
 	viper.Reset()
